@@ -121,60 +121,232 @@ def Going (s : St) : Prop :=
 macro "sfx" : tactic => `(tactic|
   first | exact ⟨[], rfl⟩ | exact ⟨[_], rfl⟩ | exact ⟨[_, _], rfl⟩ | exact ⟨[_, _, _], rfl⟩)
 
-theorem emit_ext (o : Ob) (s : St) : s.out <:+ (emit o s).out := List.suffix_cons _ _
-theorem sendCommitRequest_ext (cfg : Cfg) (d : Option Rat) (a : Option Nat) (s : St) : s.out <:+ (sendCommitRequest cfg d a s).out := by
+/-- `s'` differs from `s` in nothing the fetch/processing machinery looks at; observations were only added -/
+def Same (s s' : St) : Prop :=
+  s'.stopping = s.stopping ∧ s'.shuttingDown = s.shuttingDown ∧ s'.startD = s.startD ∧ s'.script = s.script ∧
+    s'.proc = s.proc ∧ s'.msgBlock = s.msgBlock ∧ s'.retryCall = s.retryCall ∧ s'.requestD = s.requestD ∧
+    s'.fetchOffset = s.fetchOffset ∧ s'.parked = s.parked ∧ s'.now = s.now ∧ s'.bufferSize = s.bufferSize ∧
+    s.out <:+ s'.out
+
+theorem Same.refl (s : St) : Same s s := ⟨rfl, rfl, rfl, rfl, rfl, rfl, rfl, rfl, rfl, rfl, rfl, rfl, List.suffix_refl _⟩
+theorem Same.trans {a b c : St} (h1 : Same a b) (h2 : Same b c) : Same a c := by
+  obtain ⟨a1, a2, a3, a4, a5, a6, a7, a8, a9, a10, a11, a12, a13⟩ := h1
+  obtain ⟨b1, b2, b3, b4, b5, b6, b7, b8, b9, b10, b11, b12, b13⟩ := h2
+  exact ⟨b1.trans a1, b2.trans a2, b3.trans a3, b4.trans a4, b5.trans a5, b6.trans a6, b7.trans a7, b8.trans a8,
+    b9.trans a9, b10.trans a10, b11.trans a11, b12.trans a12, a13.trans b13⟩
+
+macro "same_leaf" : tactic => `(tactic| exact ⟨rfl, rfl, rfl, rfl, rfl, rfl, rfl, rfl, rfl, rfl, rfl, rfl, by sfx⟩)
+
+theorem emit_same (o : Ob) (s : St) : Same s (emit o s) := by same_leaf
+theorem sendCommitRequest_same (cfg : Cfg) (d : Option Rat) (a : Option Nat) (s : St) : Same s (sendCommitRequest cfg d a s) := by
   rcases s with ⟨fo, lp, lc, stp, shd, sdD, lpr, cds, creq, sD, rD, rC, cC, mb, pk, pr, fr, rdl, att, bs, nw, nr, nc, nwt, sc, er, ec, cr, out⟩
-  cases cC <;> cases creq <;> cases lp <;> sfx
-theorem looperReset_ext (cfg : Cfg) (s : St) : s.out <:+ (looperReset cfg s).out := by
+  cases cC <;> cases creq <;> cases lp <;> same_leaf
+theorem looperReset_same (cfg : Cfg) (s : St) : Same s (looperReset cfg s) := by
   rcases s with ⟨fo, lp, lc, stp, shd, sdD, lpr, cds, creq, sD, rD, rC, cC, mb, pk, pr, fr, rdl, att, bs, nw, nr, nc, nwt, sc, er, ec, cr, out⟩
-  rcases lpr with _ | ⟨st, _ | due⟩ <;> sfx
-theorem startErrback_ext (f : Fail) (s : St) : s.out <:+ (startErrback f s).out := by
-  rcases s with ⟨fo, lp, lc, stp, shd, sdD, lpr, cds, creq, sD, rD, rC, cC, mb, pk, pr, fr, rdl, att, bs, nw, nr, nc, nwt, sc, er, ec, cr, out⟩
-  cases sD <;> sfx
-theorem commitState_ext (cfg : Cfg) (w : Who) (s : St) : s.out <:+ (commitState cfg w s).out := by
+  rcases lpr with _ | ⟨st, _ | due⟩ <;> same_leaf
+theorem commitState_same (cfg : Cfg) (w : Who) (s : St) : Same s (commitState cfg w s) := by
   unfold commitState
   split
-  · exact List.suffix_refl _
+  · exact Same.refl _
   split
-  · exact List.suffix_refl _
+  · exact Same.refl _
   split
-  · cases w <;> exact List.suffix_refl _
-  · exact (sendCommitRequest_ext cfg none none { s with commitDs := [_] }).trans (looperReset_ext cfg _)
-theorem handleAutoCommitError_ext (f : Fail) (s : St) : s.out <:+ (handleAutoCommitError f s).out := by
-  unfold handleAutoCommitError
-  split
-  · exact List.suffix_refl _
-  split
-  · exact startErrback_ext _ _
-  · exact List.suffix_refl _
-theorem autoCommit_ext (cfg : Cfg) (b : Bool) (s : St) : s.out <:+ (autoCommit cfg b s).out := by
+  · cases w <;> same_leaf
+  · exact (show Same s { s with commitDs := [_] } by same_leaf).trans
+      ((sendCommitRequest_same cfg none none _).trans (looperReset_same cfg _))
+
+theorem commitResult_auto_noerr (cfg : Cfg) (s : St) (hg : cfg.group = true) (he : s.commitDs.isEmpty = true) (f : Fail) :
+    commitResult cfg .auto s ≠ some (.err f) := by
+  unfold commitResult
+  simp only [hg, he, Bool.not_true, Bool.false_eq_true, if_false]
+  split <;> simp
+
+/-- `_auto_commit` does not touch fetching and processing -/
+theorem autoCommit_same (cfg : Cfg) (b : Bool) (s : St) : Same s (autoCommit cfg b s) := by
   unfold autoCommit
   split
-  · exact List.suffix_refl _
-  dsimp only
+  · exact Same.refl _
+  rename_i hg
+  have hgroup : cfg.group = true := by
+    cases h : cfg.group
+    · simp [h] at hg
+    · rfl
+  repeat' ((try dsimp only); split)
+  all_goals first
+    | exact Same.refl _
+    | same_leaf
+    | exact commitState_same _ _ _
+    | exact absurd ‹commitResult cfg Who.auto s = some (DRes.err _)› (commitResult_auto_noerr cfg s hgroup ‹_› _)
+
+/-- the observation `i` was made between `s` and `s'` -/
+def Fresh (s s' : St) (i : Item) : Prop := ∃ new, s'.out = new ++ s.out ∧ i ∈ new
+
+theorem Fresh.right {s s1 s2 : St} {i : Item} (h : Fresh s s1 i) (h2 : s1.out <:+ s2.out) : Fresh s s2 i := by
+  obtain ⟨new, h1, hi⟩ := h
+  obtain ⟨t, ht⟩ := h2
+  exact ⟨t ++ new, by rw [← ht, h1, List.append_assoc], List.mem_append_right _ hi⟩
+
+theorem Fresh.left {s s1 s2 : St} {i : Item} (h2 : s.out <:+ s1.out) (h : Fresh s1 s2 i) : Fresh s s2 i := by
+  obtain ⟨new, h1, hi⟩ := h
+  obtain ⟨t, ht⟩ := h2
+  exact ⟨new ++ t, by rw [h1, ← ht, List.append_assoc], List.mem_append_left _ hi⟩
+
+/-- what the processing loop leaves alone when the processor returns at once -/
+def Kept (s s' : St) : Prop :=
+  s'.proc = s.proc ∧ s'.msgBlock = s.msgBlock ∧ s'.retryCall = s.retryCall ∧ s'.requestD = s.requestD ∧
+    s'.fetchOffset = s.fetchOffset ∧ s'.parked = s.parked ∧ s'.now = s.now ∧ s'.bufferSize = s.bufferSize ∧ s.out <:+ s'.out
+
+theorem Kept.trans {a b c : St} (h1 : Kept a b) (h2 : Kept b c) : Kept a c := by
+  obtain ⟨a1, a2, a3, a4, a5, a6, a7, a8, a9⟩ := h1
+  obtain ⟨b1, b2, b3, b4, b5, b6, b7, b8, b9⟩ := h2
+  exact ⟨b1.trans a1, b2.trans a2, b3.trans a3, b4.trans a4, b5.trans a5, b6.trans a6, b7.trans a7, b8.trans a8, a9.trans b9⟩
+
+theorem Same.kept {a b : St} (h : Same a b) : Kept a b := by
+  obtain ⟨_, _, _, _, a5, a6, a7, a8, a9, a10, a11, a12, a13⟩ := h
+  exact ⟨a5, a6, a7, a8, a9, a10, a11, a12, a13⟩
+
+theorem blockSize_pos (cfg : Cfg) (n : Nat) (h : 0 < n) : 0 < blockSize cfg n := by
+  unfold blockSize
   split
-  · exact List.suffix_refl _
-  split
-  · split
-    · exact (commitState_ext _ _ _).trans (handleAutoCommitError_ext _ _)
-    · exact commitState_ext _ _ _
-  · exact List.suffix_refl _
+  · rename_i h1; simp at h1; omega
+  · exact h
+
+/-- one processor call that returns at once -/
+def okCall (blk rest' : List Msg) (last : Int) (s : St) : St := procLeave .ok rest' last (procEnter blk rest' last s)
+
+theorem okCall_eq (blk rest' : List Msg) (last : Int) (s : St) : okCall blk rest' last s =
+    { emit (.procRet .ok) { emit (.proc blk) s with script := s.script.tail, frame := some { rest := rest', last := last } } with
+      frame := none, lastProcessed := some last } := rfl
+
+theorem okCall_going (cfg : Cfg) (blk rest' : List Msg) (last : Int) (s : St) (hg : Going s) :
+    Going (autoCommit cfg true (okCall blk rest' last s)) := by
+  obtain ⟨g1, g2, g3, g4⟩ := hg
+  obtain ⟨c1, c2, c3, c4, _⟩ := autoCommit_same cfg true (okCall blk rest' last s)
+  refine ⟨by rw [c1]; exact g1, by rw [c2]; exact g2, by rw [c3]; exact g3, ?_⟩
+  unfold okScript at *
+  rw [c4]
+  show s.script.tail.all _ = true
+  cases hsc : s.script with
+  | nil => rfl
+  | cons e t2 => rw [hsc] at g4; simp only [List.all_cons, Bool.and_eq_true] at g4; exact g4.2
+
+theorem procBody_ok (cfg : Cfg) (inner : Ops) (k : St → St × Bool) (blk rest' : List Msg) (last : Int) (s : St) (hg : Going s) :
+    procBody cfg inner k blk rest' last okEntry s = k (autoCommit cfg true (okCall blk rest' last s)) := by
+  have h := okCall_going cfg blk rest' last s hg
+  show (if ((autoCommit cfg true (okCall blk rest' last s)).stopping ||
+      (autoCommit cfg true (okCall blk rest' last s)).startD == StartD.none) = true then _ else k _) = _
+  rw [if_neg]
+  · rfl
+  · rw [h.1, h.2.2.1]; decide
+
+/-- With a processor that returns at once the loop hands over the whole list, block by block, and finishes; the consumer
+    goes on. -/
+theorem procLoop_ok (cfg : Cfg) (inner : Ops) : ∀ (fuel : Nat) (rest : List Msg) (s : St), rest.length < fuel → Going s →
+    (procLoop cfg inner fuel rest s).2 = true ∧ Going (procLoop cfg inner fuel rest s).1 ∧
+      Kept s (procLoop cfg inner fuel rest s).1 ∧
+      ∀ x ∈ rest, ∃ blk, x ∈ blk ∧ Fresh s (procLoop cfg inner fuel rest s).1 (.ob (.proc blk))
+  | 0, _, _, h, _ => by omega
+  | fuel + 1, rest, s, hlen, hg => by
+    obtain ⟨g1, g2, g3, g4⟩ := hg
+    cases hr : rest with
+    | nil =>
+      have e : procLoop cfg inner (fuel + 1) [] s = (s, true) := by simp [procLoop]
+      rw [e]
+      exact ⟨rfl, ⟨g1, g2, g3, g4⟩, ⟨rfl, rfl, rfl, rfl, rfl, rfl, rfl, rfl, List.suffix_refl _⟩, fun x hx => by simp at hx⟩
+    | cons a tl =>
+      rw [← hr]
+      have hne : rest ≠ [] := by rw [hr]; simp
+      have hpos : 0 < rest.length := List.length_pos_iff.2 hne
+      have hbs := blockSize_pos cfg rest.length hpos
+      have htake : rest.take (blockSize cfg rest.length) ≠ [] := by
+        intro h0
+        have := congrArg List.length h0
+        simp only [List.length_take, List.length_nil] at this
+        omega
+      obtain ⟨lastMsg, hlast⟩ : ∃ m, (rest.take (blockSize cfg rest.length)).getLast? = some m := by
+        cases h : (rest.take (blockSize cfg rest.length)).getLast? with
+        | none => exact absurd (List.getLast?_eq_none_iff.1 h) htake
+        | some m => exact ⟨m, rfl⟩
+      have hemp : rest.isEmpty = false := by cases rest <;> simp_all
+      simp only [procLoop, hemp, g1, g2, Bool.or_self, Bool.false_eq_true, if_false, hlast, head_ok s g4]
+      rw [procBody_ok cfg inner _ _ _ _ s ⟨g1, g2, g3, g4⟩]
+      have hgo2 := okCall_going cfg (rest.take (blockSize cfg rest.length)) (rest.drop (blockSize cfg rest.length)) lastMsg.off s ⟨g1, g2, g3, g4⟩
+      have hs1' := okCall_eq (rest.take (blockSize cfg rest.length)) (rest.drop (blockSize cfg rest.length)) lastMsg.off s
+      obtain ⟨c1, c2, c3, c4, c5, c6, c7, c8, c9, c10, c11, c12, c13⟩ :=
+        autoCommit_same cfg true (okCall (rest.take (blockSize cfg rest.length)) (rest.drop (blockSize cfg rest.length)) lastMsg.off s)
+      generalize okCall (rest.take (blockSize cfg rest.length)) (rest.drop (blockSize cfg rest.length)) lastMsg.off s = s1 at *
+      have hdrop : (rest.drop (blockSize cfg rest.length)).length < fuel := by
+        simp only [List.length_drop]; omega
+      obtain ⟨i1, i2, i3, i4⟩ := procLoop_ok cfg inner fuel (rest.drop (blockSize cfg rest.length)) (autoCommit cfg true s1) hdrop hgo2
+      have hext1 : s.out <:+ s1.out := by rw [hs1']; exact ⟨[_, _], rfl⟩
+      have hfresh1 : Fresh s s1 (.ob (.proc (rest.take (blockSize cfg rest.length)))) := by
+        rw [hs1']; exact ⟨[_, _], rfl, by simp⟩
+      have hk1 : Kept s s1 := by rw [hs1']; exact ⟨rfl, rfl, rfl, rfl, rfl, rfl, rfl, rfl, ⟨[_, _], rfl⟩⟩
+      have hsm : Same s1 (autoCommit cfg true s1) := ⟨c1, c2, c3, c4, c5, c6, c7, c8, c9, c10, c11, c12, c13⟩
+      have k9 := i3.2.2.2.2.2.2.2.2
+      refine ⟨i1, i2, (hk1.trans hsm.kept).trans i3, ?_⟩
+      · intro x hx
+        rw [← List.take_append_drop (blockSize cfg rest.length) rest] at hx
+        rcases List.mem_append.1 hx with hx | hx
+        · exact ⟨_, hx, (hfresh1.right c13).right k9⟩
+        · obtain ⟨blk, hb1, hb2⟩ := i4 x hx
+          exact ⟨blk, hb1, Fresh.left (hext1.trans c13) hb2⟩
+
 theorem retryFetch_ext (cfg : Cfg) (a : Option Rat) (s : St) : s.out <:+ (retryFetch cfg a s).out := by
   unfold retryFetch
   split
   · exact List.suffix_refl _
   split
-  · dsimp only; split <;> exact emit_ext _ _
+  · dsimp only; split <;> exact List.suffix_cons _ _
   · exact List.suffix_refl _
 
-theorem autoCommit_keeps (cfg : Cfg) (b : Bool) (s : St) :
-    (autoCommit cfg b s).stopping = s.stopping ∧
-      (autoCommit cfg b s).shuttingDown = s.shuttingDown ∧ (autoCommit cfg b s).startD = s.startD ∧
-      (autoCommit cfg b s).script = s.script ∧ (autoCommit cfg b s).proc = s.proc ∧
-      (autoCommit cfg b s).msgBlock = s.msgBlock ∧ (autoCommit cfg b s).retryCall = s.retryCall ∧
-      (autoCommit cfg b s).requestD = s.requestD ∧ (autoCommit cfg b s).fetchOffset = s.fetchOffset ∧
-      (autoCommit cfg b s).parked = s.parked := by
-  unfold autoCommit commitResult commitState handleAutoCommitError sendCommitRequest looperReset crash emit startErrback
-  grind
+theorem finishSimple_out (s : St) : (finishSimple s).out = s.out := by
+  unfold finishSimple; split <;> rfl
+
+/-- `_process_messages` on a freshly extracted list, processor returning at once: everything is handed over, the block
+    is cleared again -/
+theorem deliverBlock_ok (cfg : Cfg) (inner : Ops) (msgs : List Msg) (s : St) (hg : Going s) (hp : s.proc = none) :
+    Going (deliverBlock cfg inner msgs s) ∧ s.out <:+ (deliverBlock cfg inner msgs s).out ∧
+      (deliverBlock cfg inner msgs s).proc = none ∧
+      (s.msgBlock = false → (deliverBlock cfg inner msgs s).msgBlock = false) ∧
+      (deliverBlock cfg inner msgs s).retryCall = s.retryCall ∧ (deliverBlock cfg inner msgs s).requestD = s.requestD ∧
+      (deliverBlock cfg inner msgs s).fetchOffset = s.fetchOffset ∧ (deliverBlock cfg inner msgs s).now = s.now ∧
+      ∀ x ∈ msgs, ∃ blk, x ∈ blk ∧ Fresh s (deliverBlock cfg inner msgs s) (.ob (.proc blk)) := by
+  unfold deliverBlock
+  split
+  · rename_i he
+    refine ⟨hg, List.suffix_refl _, hp, fun h => h, rfl, rfl, rfl, rfl, fun x hx => ?_⟩
+    cases msgs <;> simp_all
+  · dsimp only
+    have hg3 : Going { s with msgBlock := true } := hg
+    obtain ⟨i1, i2, i3, i4⟩ := procLoop_ok cfg inner (msgs.length + 1) msgs { s with msgBlock := true } (by omega) hg3
+    obtain ⟨k1, k2, k3, k4, k5, k6, k7, k8, k9⟩ := i3
+    generalize procLoop cfg inner (msgs.length + 1) msgs { s with msgBlock := true } = res at *
+    obtain ⟨s4, done⟩ := res
+    have i1' : done = true := i1
+    subst i1'
+    have hp4 : s4.proc = none := k1.trans hp
+    dsimp only
+    simp only [hp4, Option.isSome_none, Bool.not_true, Bool.or_self, Bool.false_eq_true, if_false]
+    have hmb4 : s4.msgBlock = true := k2
+    unfold finishSimple
+    simp only [hmb4, if_true]
+    exact ⟨i2, k9, hp4, fun _ => trivial, k3, k4, k5, k7, i4⟩
+
+/-- A fetch reply without a raising tail, arriving while the consumer runs and no block is in progress -/
+theorem step_fetch_idle (cfg : Cfg) (s : St) (k : Nat) (c : Bool) (r : Reply) (hr : r.tail = .done) (hc : s.crashed = false)
+    (hreq : s.requestD = .pending k .fetch c) (hst : s.startD = .pending) (hmb : s.msgBlock = false) :
+    step cfg s (.fetchOk k r) =
+      (if (retryFetch cfg (some 0) (deliverBlock cfg (opsN cfg cfg.depth) (extract s.fetchOffset r.msgs).1
+          { s with out := .ev (.fetchOk k r) :: s.out, retryDelay := cfg.retryInit, attempts := 1, requestD := .none,
+                   fetchOffset := (extract s.fetchOffset r.msgs).2 })).crashed
+       then retryFetch cfg (some 0) (deliverBlock cfg (opsN cfg cfg.depth) (extract s.fetchOffset r.msgs).1
+          { s with out := .ev (.fetchOk k r) :: s.out, retryDelay := cfg.retryInit, attempts := 1, requestD := .none,
+                   fetchOffset := (extract s.fetchOffset r.msgs).2 })
+       else probe (retryFetch cfg (some 0) (deliverBlock cfg (opsN cfg cfg.depth) (extract s.fetchOffset r.msgs).1
+          { s with out := .ev (.fetchOk k r) :: s.out, retryDelay := cfg.retryInit, attempts := 1, requestD := .none,
+                   fetchOffset := (extract s.fetchOffset r.msgs).2 }))) := by
+  cases c <;>
+    simp [step, hc, stepCore, hreq, handleFetchResponse, hst, hmb, fetchBody, fetchTail, hr]
 
 end Afkak.Proofs.Consumer.L
